@@ -131,9 +131,16 @@ func VH_C03_companion_late_inflection() {
 		{Point{0, 0}, Point{70, 60}, Point{-10, 70}, Point{60, 0}},
 		{Point{500, 400}, Point{10, 250}, Point{450, 10}, Point{120, 220}},
 		{Point{120, 220}, Point{450, 10}, Point{10, 250}, Point{500, 400}},
+		// 12-14: hairpins: the curve runs out almost straight, turns sharply and runs back
+		// (finding D84 for 12 and 13, where the turn lies in the flat range around a near-cusp)
+		{Point{0, 0}, Point{5, 1}, Point{6, 0}, Point{0, 1}},
+		{Point{0, 0}, Point{6, 8}, Point{6, 5}, Point{0, 3}},
+		{Point{0, 0}, Point{7, 1}, Point{8, 7}, Point{6, 2}},
 	}
-	c := cs[vChoose(0, len(cs)-1)]
+	k := vChoose(0, len(cs)-1)
+	c := cs[k]
 	tol := []float64{1, 0.1, 0.01, 3, 8}[vChoose(0, 4)]
+	vKnown("D84", k == 12 || k == 13 || k == 14)
 	p := &Path{}
 	p.MoveTo(c.p0.X, c.p0.Y)
 	p.CubeTo(c.p1.X, c.p1.Y, c.p2.X, c.p2.Y, c.p3.X, c.p3.Y)
